@@ -6,6 +6,10 @@
                the chained form `A -> B {..}, -> C {..}`), both parsed by the real library through the public entry points
                (parse_XML_buffer / parse_XTA with a Document*): canonical dumps, diagnostics (messages, position-free) and
                the supported-methods verdict must be equal.  A difference is a VIOLATION with both texts as replay.
+               Every sixth model also goes through the file entry points (parse_XML_file, parse_XTA(FILE*)): same result as
+               from the buffer.  Fault-injected models include texts that END in an unfinished lexical state (a comment that is
+               never closed, an unterminated string); after each of them further models are parsed in the same process and
+               must give what they give in a fresh one.  3.x-syntax pairs (newxta = false) through all four entry points.
  3 correspond  callback traces of a logging DocumentBuilder for both front ends == traces predicted by drv_c05
                (model of the XTA grammar's process productions incl. rootTransId; model of the XML reader), and the
                real dump == the predicted document (tie C).  This is the first time the XTA whole-file grammar is run.
@@ -42,12 +46,21 @@ def gen_case(seed, thorough_big=False):
     return M, prefs
 
 
+# texts after the system line that leave the scanner in the middle of something when the input ends: in XML they end the <system>
+# element (the last text handed to the grammar), in XTA the file.  Both formats report the same diagnostic and keep the whole model.
+# (No trailing backslash: the XTA rendering ends with a newline, which would make it a line continuation there and a stray token in XML.)
+OPEN_TAILS = ["\n/* never closed", " /* a\n * b\n", "\n/**", " /*/", "\n/* EXPECT: x", "\n/* closed */ /* open", "\n// no newline at the end",
+              "\n\"abc"]
+TAIL_NAME = dict(zip(OPEN_TAILS, ["block-comment", "block-comment-lines", "doc-comment", "slash-star-slash", "expect-comment", "second-comment",
+                                  "line-comment-at-eof", "string-literal"]))
+
+
 def inject_fault(M, r):
     """make the model produce diagnostics (the same ones in both formats): type errors in labels, an unknown identifier,
     urgent+committed, a duplicate location name, a wrong argument count, an unknown process"""
     M["faulty"] = True
     ts = [t for t in M["templates"]]
-    kind = r.choice(["unknown_id", "sync_int", "both_flags", "dup_name", "few_args", "no_proc", "clock_guard", "bad_inv"])
+    kind = r.choice(["unknown_id", "sync_int", "both_flags", "dup_name", "few_args", "no_proc", "clock_guard", "bad_inv", "open_tail"])
     es = [(t, e) for t in ts for e in t["edges"]]
     if kind in ("unknown_id", "sync_int", "clock_guard") and es:
         t, e = r.choice(es)
@@ -77,6 +90,8 @@ def inject_fault(M, r):
         i["args"] = i["args"][:-1] if i["args"] else [["int", 5]]
     elif kind == "no_proc":
         M["procs"].append({"name": "Zed", "lt": False})
+    elif kind == "open_tail":
+        M["system_tail"] = r.choice(OPEN_TAILS)
     elif kind == "bad_inv" and ts:
         l = r.choice(r.choice(ts)["locs"])
         l["labels"] = [["invariant", ["GE", ["id", "m"], ["PLUS", ["id", "x"], ["int", 77002]]]]]
@@ -103,6 +118,10 @@ class Runner:
             texts[cid] = (xml, xta)
             frames.append((cid + ".xml", m.frame("xml", cid + ".xml", xml)))
             frames.append((cid + ".xta", m.frame("xta", cid + ".xta", xta)))
+            if zlib.crc32(cid.encode()) % 6 == 1 or M.get("system_tail"):
+                # the same two texts as files: which entry point of a format is used is no more observable than the format
+                frames.append((cid + ".xmlf", m.frame("xmlf", cid + ".xmlf", xml)))
+                frames.append((cid + ".xtaf", m.frame("xtaf", cid + ".xtaf", xta)))
             keys[cid] = m.Keys()
             lean += ["model " + cid] + m.lean_lines(M, keys[cid])[:-1] + ["prefs " + " ".join("1" if p else "0" for p in prefs), "end"]
         blocks, crashed = m.run_batches(self.exe, [], frames)
@@ -121,12 +140,19 @@ class Runner:
                 stats["with_diagnostics"] += 1
             if ",\n    ->" in texts[cid][1] or ",\n    -u->" in texts[cid][1]:
                 stats["chained_used"] += 1
-            for c in (cid + ".xml", cid + ".xta"):
+            for c in (cid + ".xml", cid + ".xta", cid + ".xmlf", cid + ".xtaf"):
                 if c in crashed:
                     res["crash"] = (c, crashed[c])
             anomalies = [l for l in restx + restt if l.startswith(("EXCEPTION", "TRACE-EXCEPTION", "TRACED-DOCUMENT-DIFFERS", "<<"))]
             if anomalies:
                 res["anomaly"] = anomalies[:3]
+            for fmt, bb in (("xml", bx), ("xta", bt)):
+                bf = blocks.get(cid + "." + fmt + "f")
+                if bf is not None:
+                    stats["file_entry_points"] = stats.get("file_entry_points", 0) + 1
+                    d = m.first_diff(bb, bf)
+                    if d:
+                        res["entry_point"] = {"format": fmt, "line": d[0], "buffer": d[1], "file": d[2]}
             # oracle: XML document == XTA document, diagnostics and verdict included
             d = m.first_diff(docx, doct)
             if d:
@@ -174,6 +200,8 @@ def classify(res):
         return "crash:" + res["crash"][0].split(".")[-1]
     if "anomaly" in res:
         return "exception:parse"
+    if "entry_point" in res:
+        return "entry-point:%s-file-vs-buffer" % res["entry_point"]["format"]
     if "doc_xml_vs_xta" in res:
         a = (res["doc_xml_vs_xta"]["xml"].strip().split(" ") or ["line"])[0]
         x, y = res["doc_xml_vs_xta"]["xml"].split(" "), res["doc_xml_vs_xta"]["xta"].split(" ")
@@ -194,9 +222,61 @@ def classify(res):
     return "model:?"
 
 
+def sequence_stage(ctx, R, cov, cases):
+    """call sequences: a model whose last text ends in an unfinished lexical state (OPEN_TAILS), through each of the four entry points, and
+    then other models in the SAME process.  What the later parses give must be what they give in a process of their own: nothing of one
+    parse (scanner start condition, buffers, counters) may survive into the next.  Testing only."""
+    r = ctx.rng
+    clean = [c for c, (M, _p) in cases.items() if not M.get("faulty")][:3 if not ctx.thorough else 12]
+    if not clean:
+        return
+    texts = {c: (m.XmlText(None).render(cases[c][0]), m.render_xta(cases[c][0], cases[c][1], None)) for c in clean}
+    alone = [("%s.%s" % (c, fmt), m.frame(fmt, "%s.%s" % (c, fmt), texts[c][k])) for c in clean for k, fmt in enumerate(("xml", "xta"))]
+    fresh, _ = m.run_batches(R.exe, [], alone, nproc=len(alone))                     # one process per text
+    seqs, frames = [], []
+    entries = ["xml", "xta", "xmlf", "xtaf"]
+    for k, tail in enumerate(OPEN_TAILS * (1 if not ctx.thorough else 6)):
+        while True:
+            P, pp = gen_case(r.getrandbits(48))
+            if not P.get("faulty"):
+                break
+        P.pop("vary_xta", None)
+        P["system_tail"] = tail
+        ptext = (m.XmlText(None).render(P), m.render_xta(P, pp, None))
+        c = clean[k % len(clean)]
+        first, second = entries[k % 4], entries[(k + 1 + k // 4) % 4]
+        seq = [("p%d.a" % k, first, ptext[0 if first.startswith("xml") else 1]), ("s%d.1" % k, "xml", texts[c][0]), ("s%d.2" % k, "xta", texts[c][1]),
+               ("p%d.b" % k, second, ptext[0 if second.startswith("xml") else 1]), ("s%d.3" % k, "xta", texts[c][1]), ("s%d.4" % k, "xml", texts[c][0])]
+        seqs.append((k, tail, c, first, second, ptext))
+        frames += [(cid, m.frame(op, cid, t)) for cid, op, t in seq]
+    blocks, crashed = m.run_batches(R.exe, [], frames, nproc=min(len(seqs), 16))      # quick tier: chunks of six frames, one process per sequence
+    nbad = 0
+
+    def strip(b, cid):            # (the block header carries the id)
+        return [l for l in (b or ["<<NO-OUTPUT>>"]) if not l.startswith(("BEGIN ", "END "))]
+    for k, tail, c, first, second, ptext in seqs:
+        for j, fmt in ((1, "xml"), (2, "xta"), (3, "xta"), (4, "xml")):
+            got, want = strip(blocks.get("s%d.%d" % (k, j)), None), strip(fresh.get("%s.%s" % (c, fmt)), None)
+            d = m.first_diff(want, got)
+            if d:
+                nbad += 1
+                if nbad <= 2:
+                    after = first if j <= 2 else second
+                    ctx.finding("sequence:after-%s" % TAIL_NAME[tail],
+                                "a model read after another one whose text ends inside an unfinished %s (entry point %s) gives another result than "
+                                "in a process of its own: line %d: %r instead of %r" % (TAIL_NAME[tail], after, d[0], d[2][:200], d[1][:200]),
+                                {"sequence": "in one process: %s of `first`, then %s of `second`" % (after, fmt), "first_xml": ptext[0], "first_xta": ptext[1],
+                                 "second_xml": texts[c][0], "second_xta": texts[c][1], "observed_line": d[2], "alone_line": d[1]})
+                break
+    cov["sequences_after_unfinished_text"] = len(seqs)
+    cov["sequence_differences"] = nbad
+
+
 def old_syntax_stage(ctx, R, cov):
     """models in the 3.x syntax (newxta = false), rendered by hand in both formats: comma lists as conjunctions in guards and invariants,
-    `:=` assignments, parameter-less `process P {`, `const` without a type.  Testing only (the Lean models describe the 4.x syntax)."""
+    `:=` assignments, parameter-less `process P {`, `const` without a type; some declare names that the 4.x prelude predeclares
+    (INT16_MAX, int8_t ...; free names in 3.x, whose models start from an empty global scope).  Each pair goes through the buffer AND the file
+    entry point of its format: four results that must be one.  Testing only (the Lean models describe the 4.x syntax)."""
     r = ctx.rng
     pairs = {}
     for k in range(12 if not ctx.thorough else 120):
@@ -205,6 +285,9 @@ def old_syntax_stage(ctx, R, cov):
         il = ["c <= %d" % r.randint(4, 9), "d <= %d" % r.randint(4, 9), "c - d <= %d" % r.randint(1, 5)][:ni]
         al = ["x := %d" % r.randint(0, 3), "y := x + %d" % r.randint(1, 3), "c := 0"][:na]
         decl = "const N %d; int x, y; clock c, d; chan a;" % r.randint(1, 5)
+        if k % 3 == 1:
+            decl += " " + r.choice(["const INT16_MAX 32767;", "const INT8_MIN -128, INT8_MAX 127;", "int int8_t;", "int uint16_t := 3, M_PI := 3;",
+                                    "const INT32_MAX 2147483647; int int32_t[2];"])
         xta = ("%s\nprocess P { state S0 { %s }, S1; init S0; trans S0 -> S1 { guard %s; sync a!; assign %s; }, S1 -> S0 { guard x <= N; assign c := 0; }; }\n"
                "process Q { state T0; init T0; trans T0 -> T0 { sync a?; }; }\nsystem P, Q;\n" % (decl, ", ".join(il), ", ".join(gl), ", ".join(al)))
         xml = ('<?xml version="1.0" encoding="utf-8"?><nta><declaration>%s</declaration>'
@@ -219,21 +302,32 @@ def old_syntax_stage(ctx, R, cov):
         pairs["o%d" % k] = (xml, xta)
     frames = []
     for cid, (xml, xta) in pairs.items():
-        frames += [(cid + ".xml", m.frame("xml0", cid + ".xml", xml)), (cid + ".xta", m.frame("xta0", cid + ".xta", xta))]
+        frames += [(cid + ".xml", m.frame("xml0", cid + ".xml", xml)), (cid + ".xta", m.frame("xta0", cid + ".xta", xta)),
+                   (cid + ".xmlf", m.frame("xmlf0", cid + ".xmlf", xml)), (cid + ".xtaf", m.frame("xtaf0", cid + ".xtaf", xta))]
     blocks, crashed = m.run_batches(R.exe, [], frames)
-    nbad, accepted = 0, 0
+    nbad, accepted, nfile = 0, 0, 0
 
     def view(b):
         doc = [l for l in b if not l.startswith(("TRACE", "BEGIN", "END", "ERROR", "WARNING", "ACTNAMES"))]     # (action names: finding of their own)
         diag = sorted(re.sub(r' path=.*$', "", l) for l in b if l.startswith(("ERROR", "WARNING")))
         return doc, diag
     for cid, (xml, xta) in pairs.items():
-        bx, bt = blocks.get(cid + ".xml"), blocks.get(cid + ".xta")
-        if bx is None or bt is None:
+        bx, bt, bxf, btf = (blocks.get(cid + e) for e in (".xml", ".xta", ".xmlf", ".xtaf"))
+        if bx is None or bt is None or bxf is None or btf is None:
             ctx.finding("crash:old-syntax", "the harness died on an old-syntax model", {"xml": xml, "xta": xta})
             break
         (dx, ex), (dt, et) = view(bx), view(bt)
         accepted += any(l.startswith("VERDICT errors=0") for l in bx)
+        for fmt, bb, bf in (("xml", bx, bxf), ("xta", bt, btf)):
+            if view(bb) != view(bf):
+                nfile += 1
+                if nfile == 1:
+                    d = m.first_diff(view(bb)[0] + view(bb)[1], view(bf)[0] + view(bf)[1])
+                    ctx.finding("entry-point:old-syntax:%s-file-vs-buffer" % fmt,
+                                "a 3.x-syntax model read from a file gives another result than the same text read from a buffer (%s): line %d: %r vs %r"
+                                % ("parse_XML_file vs parse_XML_buffer" if fmt == "xml" else "parse_XTA(FILE*) vs parse_XTA(const char*)", d[0], d[2][:200], d[1][:200]),
+                                {"entry": "newxta=false", "xml": xml, "xta": xta, "file_result": (view(bf)[0] + view(bf)[1])[:60],
+                                 "buffer_result": (view(bb)[0] + view(bb)[1])[:60]})
         if dx != dt or ex != et:
             nbad += 1
             if nbad == 1:
@@ -244,6 +338,7 @@ def old_syntax_stage(ctx, R, cov):
     cov["old_syntax_pairs"] = len(pairs)
     cov["old_syntax_accepted"] = accepted
     cov["old_syntax_differences"] = nbad
+    cov["old_syntax_file_vs_buffer_differences"] = nfile
 
 
 def run(ctx):
@@ -274,7 +369,8 @@ def run(ctx):
     bad, stats = R.compare(cases)
     cov["run_s"] = round(time.time() - t1, 1)
     old_syntax_stage(ctx, R, cov)
-    real = {c: r for c, r in bad.items() if any(k in r for k in ("crash", "anomaly", "doc_xml_vs_xta", "diagnostics_xml_vs_xta"))}
+    sequence_stage(ctx, R, cov, cases)
+    real = {c: r for c, r in bad.items() if any(k in r for k in ("crash", "anomaly", "entry_point", "doc_xml_vs_xta", "diagnostics_xml_vs_xta"))}
     act = {c: r for c, r in bad.items() if "actname" in r and c not in real}
     modelonly = {c: r for c, r in bad.items() if c not in real and any(k in r for k in ("trace_xta", "trace_xml", "doc_xta_vs_model", "lean"))}
     cov.update({"evaluations": len(cases), "correspondence_cases": 2 * len(cases), "correspondence_disagreements": len(modelonly),
@@ -326,11 +422,29 @@ def run(ctx):
 def replay(ctx, path):
     r = json.load(open(path))
     rep = r.get("replay", {})
-    if "xml" not in rep:
+    if "xml" not in rep and "first_xml" not in rep:
         print(json.dumps(r, indent=1)[:4000])
         return 1
     b = core.build_repo("asan")
     exe = core.build_harness(b, "c04", ["c04.cpp"])
+    body = lambda ls: [l for l in ls if not l.startswith(("BEGIN ", "END "))]
+    if "first_xml" in rep:
+        # a sequence: the second model after the first in one process, and alone
+        both, _ = m.run_batches(exe, [], [("a", m.frame("xml", "a", rep["first_xml"])), ("b", m.frame("xta", "b", rep["first_xta"])),
+                                          ("x", m.frame("xml", "x", rep["second_xml"])), ("t", m.frame("xta", "t", rep["second_xta"]))], nproc=1)
+        alone, _ = m.run_batches(exe, [], [("x", m.frame("xml", "x", rep["second_xml"])), ("t", m.frame("xta", "t", rep["second_xta"]))], nproc=2)
+        d = m.first_diff(body(alone.get("x", [])), body(both.get("x", []))) or m.first_diff(body(alone.get("t", [])), body(both.get("t", [])))
+        print("first difference between the second model alone and after the first:", d)
+        return 1 if d else 0
+    if rep.get("entry") == "newxta=false" or "newxta=false" in str(rep.get("entry")):
+        ops = [("xml0", "xml"), ("xta0", "xta"), ("xmlf0", "xml"), ("xtaf0", "xta")]
+        blocks, _ = m.run_batches(exe, [], [(o, m.frame(o, o, rep[k])) for o, k in ops], nproc=1)
+        keep0 = lambda ls: [re.sub(r' path=.*$', "", l) for l in body(ls) if not l.startswith(("TRACE", "ACTNAMES"))]
+        d = None
+        for o, _k in ops[1:]:
+            d = d or m.first_diff(keep0(blocks.get("xml0", [])), keep0(blocks.get(o, [])))
+            print("parse_XML_buffer vs %s:" % o, m.first_diff(keep0(blocks.get("xml0", [])), keep0(blocks.get(o, []))))
+        return 1 if d else 0
     blocks, crashed = m.run_batches(exe, [], [("xml", m.frame("xml", "xml", rep["xml"])), ("xta", m.frame("xta", "xta", rep["xta"]))], nproc=1)
     keep = lambda ls: [l for l in ls if not l.startswith("TRACE ") and not l.startswith("  var ") and not l.startswith("  typedef ")]
     bx, bt = keep(blocks.get("xml", [])), keep(blocks.get("xta", []))
